@@ -546,12 +546,12 @@ def family_run(pid, tier, seed, replay):
             v.cov["vacuity_witnesses_reached"] = nw
         phase("witness")
         # 2. scenarios generated by TLC from the model
-        limit = 120 if tier == "quick" else 4000
+        limit = 80 if tier == "quick" else 4000
         for i, (cfg, store, js, stateless, prime) in enumerate(fam["cover"][tier]):
             rows += cover_scenarios(v, cfg, store, js, stateless, prime, seed, rnd, limit, "cov%d." % i)
         n_cover = len(rows)
         phase("cover")
-        rows += simulate_scenarios(v, fam["gen"], 150 if tier == "quick" else 2500, 70, seed, rnd, "sim")
+        rows += simulate_scenarios(v, fam["gen"], 100 if tier == "quick" else 2500, 70, seed, rnd, "sim")
         v.cov["tlc_generated_scenarios"] = len(rows)
         v.cov["cover_scenarios_run"] = n_cover
         rows += corner_scenarios(pid, rnd)
@@ -560,7 +560,7 @@ def family_run(pid, tier, seed, replay):
         else:
             rows += [dict(r, id="x-" + r["id"]) for r in corner_scenarios("C10", rnd)]
     phase("simulate")
-    nrand = 0 if replay else (250 if tier == "quick" else 3000)
+    nrand = 0 if replay else (200 if tier == "quick" else 3000)
     obs, orows = run_harness(pid, rows, seed, nrand)
     phase("go")
     traces, bad = judge(v, pid, obs, orows, {r["id"]: r for r in rows})
